@@ -86,6 +86,14 @@ def prop_set(draw, kind_hint=None, values=None):
     return [name, v]
 
 
+@st.composite
+def calendar_object_noncanonical(draw):
+    """A legal calendar object in a spelling the server would not write itself (LF line ends, long unfolded
+    line, lower-case names, unusual property order)."""
+    o = draw(gen.calendar_object(style={"eol": draw(st.sampled_from(["\n", "\r\n"])), "fold": 0, "case": draw(st.sampled_from(["lower", "title", "upper"])), "shuffle": 1, "final_eol": draw(st.booleans())}))
+    return o["raw"]
+
+
 def wrap_locked(draw, steps, rate):
     """With probability 1/rate the write step just appended arrives while somebody else holds the
     repository's index lock or ref lock (LOCKED step)."""
@@ -95,7 +103,7 @@ def wrap_locked(draw, steps, rate):
 
 
 @st.composite
-def program(draw, weights=None, min_steps=8, max_steps=30, prefixes=PREFIXES, seed_bare=True, fancy_names=True, cond_rate=4, prop_values=None, restart_rate=None, focus=False, sparse_rate=0, locked_rate=0, retype=False):
+def program(draw, weights=None, min_steps=8, max_steps=30, prefixes=PREFIXES, seed_bare=True, fancy_names=True, cond_rate=4, prop_values=None, restart_rate=None, focus=False, sparse_rate=0, locked_rate=0, retype=False, untyped_rate=0):
     w = dict(DEFAULT_WEIGHTS)
     if weights:
         w.update(weights)
@@ -149,6 +157,10 @@ def program(draw, weights=None, min_steps=8, max_steps=30, prefixes=PREFIXES, se
                 else:
                     raw = draw(st.sampled_from(bad_cal))[1]
                 ctype = draw(st.sampled_from(CAL_CTYPES))
+                if untyped_rate and op == "PUT" and draw(st.integers(0, untyped_rate - 1)) == 0:
+                    # a client that does not say what it uploads (curl -T): the bytes are stored as they are
+                    ctype = "application/octet-stream"
+                    raw = draw(calendar_object_noncanonical())
             elif fam == "card":
                 slot = draw(st.sampled_from(AB))
                 name = draw(st.sampled_from(vcf_names))
